@@ -292,5 +292,25 @@ func c07Enumerate(t *testing.T) {
 			}
 		}
 	}
+	// every two-byte combination at every alignment within a 16-byte window of plain text
+	// (word-at-a-time scans treat neighbouring bytes together)
+	pairs := 0
+	base := []byte("the quick brown fox jumps over it\n")
+	for v := sh; v < 65536; v += nsh {
+		for p := 0; p <= 9; p++ {
+			x := append([]byte(nil), base...)
+			x[p], x[p+1] = byte(v>>8), byte(v)
+			c := c07Case{X: x, Limit: 0}
+			r := c07Check(c)
+			pairs++
+			r.Labels = append(r.Labels, "enum-pairs")
+			vfStats.record(r, func() any { return map[string]any{"sub": "enum", "pair": fmt.Sprintf("%04x", v), "at": p} })
+			if r.Err != nil {
+				vfEnumFail(t, "C07", "enum", c, r.Err)
+				return
+			}
+		}
+	}
+	vfStats.Subchecks["enum-pairs"] = fmt.Sprintf("all 65536 two-byte values at offsets 0..9 of a text line (this shard: %d cases)", pairs)
 	vfStats.Subchecks["enum"] = fmt.Sprintf("templates=%d slots=%d (all 256 values x 5 limits each; this shard took every %d-th slot)", len(c07Templates), idx, nsh)
 }
